@@ -356,6 +356,16 @@ f7c I y;s:run:1;s:run:2;s:towait;s:deletenow;y
 f7d I,I s:start;y;s:gstop:15:50;y;s:run:1;s:towait;s:deletenow;a:100
 edge S50 s:start;y;s:gstop:15:50;a:100
 edge2 E60 s:start;a:10;s:gstop:15:50;a:100
+inj1 I s:start;y;s:gstop:15:0;m:towait;a:50
+inj2 I s:start;y;s:gstop:15:40;m:deletenow;a:100
+inj3 I,I s:start;y;s:run:1;m:restart;s:run:2;a:50
+inj4 I m:start;a:10
+inj5 E20 s:start;a:20;s:run:3;m:stop;a:30
+inj6 I,I s:start;y;s:gtryrestart:15:0;m:towait;s:run:4;a:50
+inj7 I s:start;y;s:gstop:15:0;m:deletenow;a:50
+inj8 I s:start;y;s:gstop:15:0;M:towait;a:50
+inj9 I,I s:start;y;s:gtryrestart:15:0;M:towait;s:run:4;a:50
+inj10 I s:start;y;s:gstop:15:0;M:stop;a:20
 """.strip().splitlines()]
 
 JOB_ALPHABET = ["start", "stop", "gstop:15:20", "restart", "grestart:15:20", "tryrestart", "gtryrestart:15:20", "signal:10", "towait", "delete", "deletenow", "run:1", "seterr", "continue"]
@@ -383,6 +393,14 @@ def job_scripts(seed, n_random, exhaustive_len):
         pre = r.choice(["y", "s:start;y", "s:start;y;s:gstop:15:50;y", "s:start;y;s:gtryrestart:15:50;y"])
         burst = [r.choice(["s:run:%d" % k, "s:run:%d" % k, "s:towait", "s:deletenow", "s:start", "s:stop", "n:run:%d" % (k + 50)]) for k in range(r.randint(2, 5))]
         out.append(f"p{j} {r.choice(['I', 'I,I', 'S30,I'])} {pre};{';'.join(burst)};a:{r.choice([10, 100])}")
+    # a second sender on another thread: the send lands while the task is between dequeuing a control and its next `recv`
+    # (`m:<api>`), with zero and non-zero grace periods, every priority
+    for j in range(120):
+        pre = r.choice(["s:start;y", "s:start;y", "y", "s:start;y;s:gstop:15:30;a:10"])
+        first = r.choice(["s:gstop:15:0", "s:gstop:15:0", "s:gstop:15:30", "s:gtryrestart:15:0", "s:gtryrestart:15:30", "s:run:7", "s:stop", "s:restart", "s:start", "s:grestart:15:0"])
+        inj = r.choice(["M:towait", "M:towait", "m:towait", "M:deletenow", "m:run:8", "M:run:8", "M:stop", "m:start", "M:signal:10", "m:delete"])
+        tail = [r.choice(["s:run:%d" % (k + 20), "s:towait", "n:start", "s:signal:10"]) for k in range(r.randint(0, 2))]
+        out.append(f"m{j} {r.choice(['I', 'I,I', 'S30,I', 'E40,I'])} {pre};{first};{inj};{';'.join(tail + ['a:' + str(r.choice([10, 60, 100]))])}")
     def beh():
         k = r.random()
         if k < 0.3: return f"E{r.choice([0,1,5,10,20,50,100,200])}"
@@ -435,10 +453,12 @@ def job_oracles(script, trace):
     if ended and unres: out.append(("C07", f"job ended but tickets {unres} never resolved"))
     # C07 / C09: with no child left (every spawned one reaped) nothing can hold a control back, so by the end of the
     # script (which ends with a long quiet period) every awaited ticket must have resolved
-    sends = [o for o in ops if o[:2] in ("s:", "n:")]
+    sends = [o for o in ops if o[:2] in ("s:", "n:", "m:", "M:")]
+    has_inj = any(o[:2] in ("m:", "M:") for o in ops)    # an injected send may have been dropped: ticket numbers after it are then one lower
     if not live and unres:
         for u in unres:
             o = sends[int(u)] if int(u) < len(sends) else "?"
+            if has_inj: o = "?:(a control of this script)"
             if o.split(":")[1] == "towait": out.append(("C09", f"wait-for-end ticket {u} not resolved although nothing is running"))
             out.append(("C07", f"ticket {u} of `{o}` never resolved although no process is left and the script has gone quiet"))
     # C06 / C09: each spawn is caused by one spawning control (start, restart, try-restart and graceful variants)
@@ -448,7 +468,7 @@ def job_oracles(script, trace):
         out.append(("C06", f"{nspawn} spawn attempts for {nspawnctl} controls that can spawn: a restart started more than once"))
         out.append(("C09", f"{nspawn} spawn attempts for {nspawnctl} controls that can spawn"))
     # C10: normal-priority run markers execute in send order
-    sent_runs = [o.split(":")[2] for o in ops if o[:2] in ("s:", "n:") and o.split(":")[1] == "run"]
+    sent_runs = [o.split(":")[2] for o in ops if o[:2] in ("s:", "n:", "m:", "M:") and o.split(":")[1] == "run"]
     ran = [e.split(":")[2] for e in ev if e.split(":")[1] == "run"]
     it = iter(sent_runs)
     if len(set(sent_runs)) == len(sent_runs) and not all(any(x == y for y in it) for x in ran):
@@ -465,13 +485,13 @@ def job_oracles(script, trace):
                     out.append(("C10", f"normal control run:{b.split(':')[2]} executed although an urgent delete-now was pending with it (burst {burst})"))
         burst = []
     # C06: no kill before the grace period of some graceful control has elapsed, in scripts without forceful controls
-    forceful = any(o[:2] in ("s:", "n:") and o.split(":")[1] in ("stop", "restart", "tryrestart", "delete", "deletenow", "continue") for o in ops) or "drop" in ops
+    forceful = any(o[:2] in ("s:", "n:", "m:", "M:") and o.split(":")[1] in ("stop", "restart", "tryrestart", "delete", "deletenow", "continue") for o in ops) or "drop" in ops
     if not forceful:
         now = 0; deadlines = []
         for o in ops:
             p = o.split(":")
             if p[0] == "a": now += int(p[1])
-            elif p[0] in ("s", "n") and p[1] in ("gstop", "grestart", "gtryrestart"): deadlines.append(now + int(p[3]))
+            elif p[0] in ("s", "n", "m", "M") and p[1] in ("gstop", "grestart", "gtryrestart"): deadlines.append(now + int(p[3]))
         for e in ev:
             p = e.split(":")
             if p[1] == "kill" and not any(d <= int(p[0]) for d in deadlines):
@@ -511,6 +531,15 @@ def job_stream(pid, ctx, n_random=None):
             s.disagreements.append((i, c, ta, " ## ".join(alts[:3])))
         for prop, what in job_oracles(c, ta):
             s.oracle_failures.append((i, c, ta, f"[{prop}] {what}"))
+        # C06 "force-kills it when the grace period elapses": the model kills exactly at expiry (theorems timer_fires / expiry_kills,
+        # c07_timer_fresh), so a kill of the same child later than in EVERY admissible model trace came after the grace period had elapsed
+        def kills(t): return {e.split(":")[2]: int(e.split(":")[0]) for e in t.split("|") if ":kill:" in e}
+        ik = kills(ta)
+        if ik and job_norm(ta) not in alts:
+            mk = [kills(a) for a in alts]
+            for ch, t in ik.items():
+                if all(ch in m for m in mk) and t > max(m[ch] for m in mk):
+                    s.oracle_failures.append((i, c, ta, f"[C06] {ch} was force-killed at {t} ms, {t - max(m[ch] for m in mk)} ms after its grace period had elapsed (the kill is due at {max(m[ch] for m in mk)} ms)"))
         if "spawn:" in ta: s.nontrivial.add(hashlib.md5((c.split(" ", 1)[1] + ta).encode()).digest()[:8])
         if i % max(1, len(scripts) // 4) == 0 and len(s.samples) < 4: s.samples.append({"script": c, "impl": ta[:300], "model": tb[:300]})
     s.note = ("scripts of API calls / virtual-time gaps / settles / handle drops against the real start_job (simulated child through the public spawn hook, paused clock, "
